@@ -18,6 +18,10 @@
  *   M:<block_align>:<align>:<flags>:<hex>    embed_buffer
  *   X:<clustering>:<block_align>:<id hex|->  set_vtable_clustering, set_block_align, set_identifier
  *   K:<id>                                   check_required_field(id) must be true  (within a table frame)
+ * With -DWITH_GLUE (one binary per corpus schema) the GENERATED builder API of that schema is reachable as well:
+ *   Gs:<t> <T>_start   Ge:<t> <T>_end   Ga:<t>:<fi>:<hex> <T>_<f>_add (scalar: default elision applies; struct: by pointer)
+ *   Gf:<t>:<fi>:<hex> <T>_<f>_force_add   Go:<t>:<fi>:<r> <T>_<f>_add(ref)   Gu:<t>:<fi>:<code>:<r|-> union   Gv:<t>:<fi>:<rt>:<rv> union vector
+ *   Gc:<t>:<arg>,.. <T>_create(all fields)   Gn:<t>:<fi>:<hex> <T>_<f>_create_as_root (nested struct root from its members)
  */
 #include "hx.h"
 #include "flatcc/flatcc_builder.h"
@@ -74,6 +78,11 @@ static int split_ch(char *s, char c, char **f, int max) { int n = 0; if (s[0] ==
 
 static int get_id(const char *s, char id[4]) { uint8_t *p; size_t n; if (s[0] == '-' ) return 0; n = hx_decode(s, &p); memset(id, 0, 4); memcpy(id, p, n < 4 ? n : 4); free(p); return 1; }
 
+#ifdef WITH_GLUE
+/* per-schema glue over the GENERATED builder API (checks/builder_util.py gen_glue_build): ops Gs Ge Ga Gf Go Gu Gv Gc Gn */
+#include "glueb.h"
+#endif
+
 #define FAILIF(c) do { if (c) goto fail; } while (0)
 
 static int run_op(flatcc_builder_t *B, char *op)
@@ -81,6 +90,9 @@ static int run_op(flatcc_builder_t *B, char *op)
     char *f[16]; int nf; uint8_t *d = 0; size_t n = 0;
     static char *el[MAXREG];
     nf = split_colon(op, f, 16);
+#ifdef WITH_GLUE
+    if (f[0][0] == 'G') return glue_op(B, f, nf);
+#endif
     if (!strcmp(f[0], "S")) {
         char st = f[1][0]; flatcc_builder_ref_t r = 0;
         n = hx_decode(f[2], &d);
